@@ -797,6 +797,10 @@ func (e *Engine) globalPtr(g *ssa.Global) Val {
 		e.w.globals[g] = id
 	}
 	pt := g.Type().(*types.Pointer)
+	if at, ok := pt.Elem().Underlying().(*types.Array); ok {
+		// global arrays live in the element maps (like heap arrays)
+		return PtrV{Ty: pt, Rid: IntLit(int64(id)), Idx: e.ar.idxLit(0), Root: at.Elem(), NonNil: true, ArrBase: true, ArrLen: at.Len()}
+	}
 	return PtrV{Ty: pt, Rid: IntLit(int64(id)), Idx: e.ar.idxLit(0), Root: pt.Elem(), NonNil: true}
 }
 
